@@ -414,8 +414,6 @@ func (p *parser) parseSwitchStatement() ast.Statement {
 
 	for index := 0; p.token != token.EOF; index++ {
 		if p.token == token.RIGHT_BRACE {
-			node.RightBrace = p.idx
-			p.next()
 			break
 		}
 
@@ -428,6 +426,7 @@ func (p *parser) parseSwitchStatement() ast.Statement {
 		}
 		node.Body = append(node.Body, clause)
 	}
+	node.RightBrace = p.expect(token.RIGHT_BRACE)
 
 	if p.mode&StoreComments != 0 {
 		p.comments.CommentMap.AddComments(node, comments, ast.LEADING)
